@@ -258,7 +258,7 @@ InvConverge == \A a, b \in Live : rep[a].know = rep[b].know => Eq(kind, rep[a], 
 InvMergeCommutative == \A a, b \in Live :
     Eq(kind, MergeInto(kind, rep[a], rep[b]), MergeInto(kind, rep[b], rep[a]))
 InvMergeIdempotent == \A a \in Live : Eq(kind, MergeInto(kind, rep[a], rep[a]), rep[a])
-InvMergeAssociative == \A a, b, c \in Live :
-    Eq(kind, MergeInto(kind, MergeInto(kind, rep[a], rep[b]), rep[c]),
-             MergeInto(kind, rep[a], MergeInto(kind, rep[b], rep[c])))
+InvMergeAssociative ==
+    LET M == [a \in Live, b \in Live |-> MergeInto(kind, rep[a], rep[b])] IN
+    \A a, b, c \in Live : Eq(kind, MergeInto(kind, M[a, b], rep[c]), MergeInto(kind, rep[a], M[b, c]))
 =============================================================================
